@@ -40,6 +40,10 @@ type Condition struct {
 // without confusing it with a structural error.
 var ErrConditionNotMet = errors.New("msgpackpatch: condition not met")
 
+// errUnordered is returned by compareLeafBytes when a float operand is NaN: the operands
+// have no order, so every comparison except "not equal" is false.
+var errUnordered = errors.New("msgpackpatch: unordered comparison (NaN)")
+
 // ApplyWithCondition is Apply plus an optional pre-condition evaluated before
 // any op runs. If cond is nil, it behaves exactly like Apply.
 func ApplyWithCondition(blob []byte, ops []Op, cond *Condition) ([]byte, error) {
@@ -101,24 +105,26 @@ func evaluateCondition(skel *Skeleton, orig []byte, cond *Condition) error {
 
 	raw := leafBytes(cur.Target, orig)
 	cmp, err := compareLeafBytes(raw, cond.Threshold)
-	if err != nil {
+	// a NaN operand is unordered: it is equal to nothing and neither below nor above anything
+	unordered := errors.Is(err, errUnordered)
+	if err != nil && !unordered {
 		return fmt.Errorf("condition: %w", err)
 	}
 
 	met := false
 	switch cond.Op {
 	case CondEqual:
-		met = cmp == 0
+		met = !unordered && cmp == 0
 	case CondNotEqual:
-		met = cmp != 0
+		met = unordered || cmp != 0
 	case CondGreaterThan:
-		met = cmp > 0
+		met = !unordered && cmp > 0
 	case CondGreaterThanOrEqual:
-		met = cmp >= 0
+		met = !unordered && cmp >= 0
 	case CondLessThan:
-		met = cmp < 0
+		met = !unordered && cmp < 0
 	case CondLessThanOrEqual:
-		met = cmp <= 0
+		met = !unordered && cmp <= 0
 	default:
 		return fmt.Errorf("%w: unknown condition op %d", ErrInvalidOp, cond.Op)
 	}
@@ -154,6 +160,9 @@ func compareLeafBytes(a, b []byte) (int, error) {
 		case classUint:
 			return cmpUint64(au, bu), nil
 		case classFloat:
+			if af != af || bf != bf {
+				return 0, errUnordered
+			}
 			return cmpFloat64(af, bf), nil
 		}
 	}
